@@ -17,18 +17,8 @@ from .. import core, nets, observe, tla, mc
 LEVEL = "model_checking"
 
 
-def one(run, ct, rng, net, quick):
-    from cotengra.slicer import SliceFinder
-    tree0 = observe.build_tree(ct, net, nets.tree_to_ssa(nets.rand_tree(rng, net.N), net.N, rng))
-    prep = rng.choice(["fresh", "fresh", "sliced", "anneal", "reconf"])
-    if prep == "sliced" and net.K >= 2:
-        tree0.remove_ind_(net.lab[rng.randint(1, net.K)])
-    elif prep == "anneal":
-        tree0.simulated_anneal_(tsteps=2, numiter=3, seed=rng.randrange(100))
-    elif prep == "reconf":
-        tree0.subtree_reconfigure_(subtree_size=3, maxiter=3)
-    kind = rng.choice(["size", "slices", "overhead", "size+overhead"])
-    size0 = tree0.max_size()
+def draw_targets(rng, size0, kind=None):
+    kind = kind or rng.choice(["size", "slices", "overhead", "size+overhead"])
     kw = {}
     if "size" in kind:
         kw["target_size"] = max(1, size0 // rng.choice([2, 3, 4, 8]))
@@ -36,26 +26,26 @@ def one(run, ct, rng, net, quick):
         kw["target_slices"] = rng.choice([2, 3, 4, 6, 9])
     if "overhead" in kind:
         kw["target_overhead"] = rng.choice([1.0, 1.25, 1.5, 2.0, 3.0])
-    allow_outer = rng.choice([True, True, False, "only"])
-    minimize = rng.choice(["flops", "size", "write", "combo", "limit"])
-    temperature = rng.choice([0.0001, 0.01, 0.5, 2.0])
-    seed = rng.randrange(10**6)
-    repeats = rng.choice([1, 4, 16])
-    d = {"net": net.to_json(), "prep": prep, "targets": kw, "allow_outer": allow_outer, "minimize": minimize,
-         "temperature": temperature, "seed": seed, "repeats": repeats, "path": [list(p) for p in tree0.get_path()],
-         "pre_sliced": list(tree0.sliced_inds)}
-    inv = net._inv()
-    try:
-        with core.watchdog(120):
-            sf = SliceFinder(tree0, temperature=temperature, minimize=minimize, allow_outer=allow_outer, seed=seed, **kw)
-            ix_sl, cost = sf.search(repeats)
-    except core.Hang:
-        raise
-    except Exception as e:
-        return ("raised", core.exc_text(e), d)
-    sl0 = {inv[i] for i in tree0.sliced_inds}
+    return kw
+
+
+def forbidden_of(net, allow_outer):
+    """the forbidden set per the statement (NOT the finder's own attribute): output indices when outer slicing is
+    disallowed, everything but the output indices for allow_outer='only'"""
     outs = set(net.output)
-    forbidden_spec = set() if allow_outer is True else (outs if allow_outer is False else set(range(1, net.K + 1)) - outs)
+    return set() if allow_outer is True else (outs if allow_outer is False else set(range(1, net.K + 1)) - outs)
+
+
+def tover_of(kw):
+    fo = Fraction(kw["target_overhead"]).limit_denominator(100) if kw.get("target_overhead") is not None else None
+    return [fo.numerator, fo.denominator] if fo else [0, 0]
+
+
+def finder_case(run, net, tree0, sf, ix_sl, cost, eff, allow_outer, d, after={-1}):
+    """one SliceFinderJudge case from a finished search: the whole cache, the returned entry, the really sliced tree.
+    `eff` are the targets in force for that search (constructor values overridden by per-call values)."""
+    inv = net._inv()
+    sl0 = {inv[i] for i in tree0.sliced_inds}
     entries = []
     keys = list(sf.costs)
     for X in keys:
@@ -74,32 +64,123 @@ def one(run, ct, rng, net, quick):
         run.violation(f"returned indices cannot be removed from the tree: {core.exc_text(e)} indices={sorted(ix_sl)} "
                       f"already sliced={list(tree0.sliced_inds)}", d, tags={"returned-indices-invalid"})
         return None
-    # tree.slice(...) with the same arguments: post-condition on the sliced set
-    after = {-1}
-    try:
-        t2 = tree0.slice(temperature=temperature, minimize=minimize, allow_outer=allow_outer, seed=seed,
-                         max_repeats=repeats, **kw)
-        after2 = {inv[i] for i in t2.sliced_inds}
-        if not (sl0 <= after2) or (after2 & forbidden_spec) - sl0:
-            run.violation(f"tree.slice result lost a sliced index or sliced a forbidden one: before={sorted(sl0)} after={sorted(after2)}",
-                          d, tags={"slice-postcondition"})
-        if sorted(t2.sliced_inds) == sorted(set(tree0.sliced_inds) | set(ix_sl)):
-            after = after2
-    except Exception:
-        pass
-    # the forbidden set per the statement (NOT the finder's own attribute): output indices when outer slicing is
-    # disallowed, everything but the output indices for allow_outer='only'
-    outs = set(net.output)
-    forbidden_spec = set() if allow_outer is True else (outs if allow_outer is False else set(range(1, net.K + 1)) - outs)
-    fo = Fraction(kw["target_overhead"]).limit_denominator(100) if "target_overhead" in kw else None
-    case = {"net": net.tla(), "ch": observe.children_of(tree0), "sl0": sl0, "mult0": int(tree0.multiplicity),
-            "forbidden": forbidden_spec, "tsize": int(kw.get("target_size", 0)),
-            "tslices": int(kw.get("target_slices", 0)), "tover": [fo.numerator, fo.denominator] if fo else [0, 0],
-            "entries": entries, "ret": ret + 1, "real": real, "after": after}
+    case = {"kind": "finder", "net": net.tla(), "ch": observe.children_of(tree0), "sl0": sl0, "mult0": int(tree0.multiplicity),
+            "forbidden": forbidden_of(net, allow_outer), "tsize": int(eff.get("target_size") or 0),
+            "tslices": int(eff.get("target_slices") or 0), "tover": tover_of(eff),
+            "entries": entries, "ret": ret + 1, "real": real, "after": after, "reslice": False}
     big = max([real["flops"]] + [e["flops"] * e["nslices"] * 100 for e in entries])
     if big >= 2**31:
         return None
     return ("case", case, d)
+
+
+def one(run, ct, rng, net, quick):
+    """returns a list of ("case", case, desc) | ("raised", text, desc)"""
+    from cotengra.slicer import SliceFinder
+    out = []
+    tree0 = observe.build_tree(ct, net, nets.tree_to_ssa(nets.rand_tree(rng, net.N), net.N, rng))
+    prep = rng.choice(["fresh", "fresh", "sliced", "sliced2", "anneal", "reconf"])
+    if prep.startswith("sliced") and net.K >= 2:
+        for ix in rng.sample(range(1, net.K + 1), min(net.K - 1, 1 if prep == "sliced" else 2)):
+            tree0.remove_ind_(net.lab[ix])
+    elif prep == "anneal":
+        tree0.simulated_anneal_(tsteps=2, numiter=3, seed=rng.randrange(100))
+    elif prep == "reconf":
+        tree0.subtree_reconfigure_(subtree_size=3, maxiter=3)
+    size0 = tree0.max_size()
+    kw = draw_targets(rng, size0)
+    allow_outer = rng.choice([True, True, False, "only"])
+    minimize = rng.choice(["flops", "size", "write", "combo", "limit"])
+    temperature = rng.choice([0.0001, 0.01, 0.5, 2.0])
+    seed = rng.randrange(10**6)
+    repeats = rng.choice([1, 4, 16])
+    d = {"net": net.to_json(), "prep": prep, "targets": kw, "allow_outer": allow_outer, "minimize": minimize,
+         "temperature": temperature, "seed": seed, "repeats": repeats, "path": [list(p) for p in tree0.get_path()],
+         "pre_sliced": list(tree0.sliced_inds), "call": "search"}
+    inv = net._inv()
+    sl0 = {inv[i] for i in tree0.sliced_inds}
+    forbidden_spec = forbidden_of(net, allow_outer)
+    # ---- (1) the finder, targets given to the constructor --------------------------------------------------
+    ix_sl = None
+    try:
+        with core.watchdog(120):
+            sf = SliceFinder(tree0, temperature=temperature, minimize=minimize, allow_outer=allow_outer, seed=seed, **kw)
+            ix_sl, cost = sf.search(repeats)
+    except core.Hang:
+        raise
+    except Exception as e:
+        out.append(("raised", core.exc_text(e), d))
+    if ix_sl is not None:
+        # tree.slice(...) with the same arguments: post-condition on the sliced set
+        after = {-1}
+        try:
+            t2 = tree0.slice(temperature=temperature, minimize=minimize, allow_outer=allow_outer, seed=seed,
+                             max_repeats=repeats, **kw)
+            after2 = {inv[i] for i in t2.sliced_inds}
+            if not (sl0 <= after2) or (after2 & forbidden_spec) - sl0:
+                run.violation(f"tree.slice result lost a sliced index or sliced a forbidden one: before={sorted(sl0)} after={sorted(after2)}",
+                              d, tags={"slice-postcondition"})
+            if sorted(t2.sliced_inds) == sorted(set(tree0.sliced_inds) | set(ix_sl)):
+                after = after2
+        except Exception:
+            pass
+        r = finder_case(run, net, tree0, sf, ix_sl, cost, kw, allow_outer, d, after)
+        if r:
+            out.append(r)
+    # ---- (2) targets overridden per call: search(target_...=) / trial(...) + best(...) -----------------------
+    if rng.random() < 0.6:
+        ctor = draw_targets(rng, size0)
+        over = draw_targets(rng, size0)
+        if rng.random() < 0.5:      # override a kind the constructor set, with another value
+            k_ = rng.choice(list(ctor))
+            over = {k_: (draw_targets(rng, size0, {"target_size": "size", "target_slices": "slices",
+                                                   "target_overhead": "overhead"}[k_]))[k_]}
+        eff = dict(ctor)
+        eff.update(over)
+        d2 = dict(d, targets=eff, ctor_targets=ctor, call_targets=over, call=rng.choice(["search-override", "trial-best-override"]))
+        try:
+            with core.watchdog(120):
+                sf2 = SliceFinder(tree0, temperature=temperature, minimize=minimize, allow_outer=allow_outer, seed=seed, **ctor)
+                if d2["call"] == "search-override":
+                    ix2, cost2 = sf2.search(repeats, **over)
+                else:
+                    for _ in range(repeats):
+                        sf2.trial(**over)
+                    ix2, cost2 = sf2.best(**over)
+            r = finder_case(run, net, tree0, sf2, ix2, cost2, eff, allow_outer, d2)
+            if r:
+                out.append(r)
+        except core.Hang:
+            raise
+        except Exception as e:
+            out.append(("raised", core.exc_text(e), d2))
+    # ---- (3) tree.slice / slice_ with reslice, in place or not, judged by the postcondition alone -------------
+    if rng.random() < 0.6:
+        kw3 = draw_targets(rng, size0)
+        reslice = rng.random() < 0.6
+        inplace = rng.random() < 0.5
+        d3 = dict(d, targets=kw3, call="slice", reslice=reslice, inplace=inplace)
+        try:
+            with core.watchdog(120):
+                src = tree0.copy()
+                t3 = src.slice(temperature=temperature, minimize=minimize, allow_outer=allow_outer, seed=seed,
+                               max_repeats=repeats, reslice=reslice, inplace=inplace, **kw3)
+            if inplace and t3 is not src:
+                run.violation("slice(inplace=True) returned another object", d3, tags={"api"})
+            if not inplace and sorted(src.sliced_inds) != sorted(tree0.sliced_inds):
+                run.violation("slice(inplace=False) changed the sliced indices of the tree it was called on", d3, tags={"api", "aliasing"})
+            case = {"kind": "slice", "net": net.tla(), "ch": observe.children_of(t3), "sl0": sl0, "mult0": int(tree0.multiplicity),
+                    "forbidden": forbidden_spec, "tsize": int(kw3.get("target_size") or 0),
+                    "tslices": int(kw3.get("target_slices") or 0), "tover": tover_of(kw3), "entries": [], "ret": 0,
+                    "real": {"size": 0, "flops": 0, "mult": 0}, "after": {inv[i] for i in t3.sliced_inds}, "reslice": reslice}
+            st3 = t3.contract_stats()
+            if st3["flops"] * 100 < 2**31:
+                out.append(("case", case, d3))
+        except core.Hang:
+            raise
+        except Exception as e:
+            out.append(("raised", core.exc_text(e), d3))
+    return out
 
 
 def run(run):
@@ -118,28 +199,34 @@ def run(run):
     n = 320 if quick else 6000
     for _ in range(n):
         net = rng.choice(pool)
-        run.count()
-        r = one(run, ct, rng, net, quick)
-        if r is None:
-            continue
-        if r[0] == "raised":
-            raised += 1
-            continue
-        cases.append(r[1])
-        descs.append(r[2])
-        run.nontrivial((net.eq(), str(r[2]["path"]), str(r[2]["targets"]), str(r[2]["allow_outer"]), r[2]["minimize"], r[2]["seed"]))
+        for r in one(run, ct, rng, net, quick):
+            run.count()
+            if r[0] == "raised":
+                raised += 1
+                continue
+            cases.append(r[1])
+            descs.append(r[2])
+            run.nontrivial((net.eq(), str(r[2]["path"]), str(r[2]["targets"]), str(r[2]["allow_outer"]), r[2]["minimize"], r[2]["seed"],
+                            r[2]["call"], str(r[2].get("reslice")), str(r[2].get("inplace"))))
     run.extra["searches_that_raised_not_judged"] = raised
     verdicts, results = tla.judge_cases(f"c07_{run.tier}", "SliceFinderJudge", cases, chunk=200)
     for res in results:
         run.tlc(res)
     run.cov["traces_validated_against_impl"] += len(cases)
     for case, d, v in zip(cases, descs, verdicts):
+        if case["kind"] == "slice":
+            if v[0] != "ok":
+                run.violation(f"tree.slice(reslice={d['reslice']}, inplace={d['inplace']}): {v[0]} ({v[1]}) sliced before={sorted(case['sl0'])} "
+                              f"after={sorted(case['after'])} targets={d['targets']} allow_outer={d['allow_outer']} eq={d['net']['eq']} "
+                              f"dims={d['net']['dims']} path={d['path']}", d, tags={v[0], "prep:" + d["prep"], "call:slice"})
+            continue
         if v[0] != "ok":
             r = case["entries"][case["ret"] - 1]
-            run.violation(f"slice finder: {v[0]} ({v[1]}) returned={sorted(r['X'])} predicted size={r['size']} flops/slice={r['flops']} "
-                          f"nslices={r['nslices']} real={case['real']} targets={d['targets']} allow_outer={d['allow_outer']} "
+            run.violation(f"slice finder ({d['call']}): {v[0]} ({v[1]}) returned={sorted(r['X'])} predicted size={r['size']} flops/slice={r['flops']} "
+                          f"nslices={r['nslices']} real={case['real']} targets={d['targets']} (constructor {d.get('ctor_targets')}, "
+                          f"per call {d.get('call_targets')}) allow_outer={d['allow_outer']} "
                           f"eq={d['net']['eq']} dims={d['net']['dims']} path={d['path']} pre_sliced={d['pre_sliced']}", d,
-                          tags={v[0], "prep:" + d["prep"]})
+                          tags={v[0], "prep:" + d["prep"], "call:" + d["call"]})
         else:
             r = case["entries"][case["ret"] - 1]
             run.sample({"eq": d["net"]["eq"], "dims": d["net"]["dims"], "path": d["path"], "prep": d["prep"], "targets": d["targets"],
@@ -147,7 +234,9 @@ def run(run):
                         "predicted": {k: r[k] for k in ("size", "flops", "nslices")}, "real": case["real"],
                         "cache_entries_judged": len(case["entries"])})
     run.extra["cache_entries_judged"] = sum(len(c["entries"]) for c in cases)
-    run.cov["rule"] = ("random trees (fresh / already sliced / after anneal / after reconfigure) x target kind and value x allow_outer in "
+    run.extra["calls_judged"] = {k: sum(1 for d in descs if d["call"] == k) for k in sorted({d["call"] for d in descs})}
+    run.cov["rule"] = ("random trees (fresh / already sliced on 1-2 indices / after anneal / after reconfigure) x target kind and value (given to the "
+                       "constructor, or overridden per call in search / trial / best) x tree.slice with reslice / inplace x allow_outer in "
                        "{True, False, 'only'} x 5 objectives x temperature x seed x repeats; every cached cost entry and the returned "
                        "one judged by TLC against the definitional cost and the really sliced tree; searches that raise are counted only")
 
